@@ -21,7 +21,7 @@ ASSUMPTIONS = ['every read has an SM tag (the pipeline guarantees it)', 'a read 
                'blacklist regions contain a read entirely or not at all; with --r2only all reads are paired',
                'byValue only with joined feature tags; --splitFeatures not generated', 'float tolerance 1e-9']
 
-CIGARS = ['20M', '20M', '20M', '10M2I8M', '10M3D10M', '3S17M', '15M5S', '5M1I5M2D9M', '20M', '12M']
+CIGARS = ['20M', '20M', '20M', '10M2I8M', '10M3D10M', '3S17M', '15M5S', '5M1I5M2D9M', '20M', '12M', '6M2I6M2D6M', '3S5M1I6M1D5M']
 
 
 def strategy():
@@ -128,6 +128,16 @@ def strategy():
             for k in range(draw(st.integers(1, 3))):
                 tid = draw(st.integers(0, nc - 1))
                 s = draw(st.integers(0, contigs[tid][1] - 50))
+                if draw(st.booleans()):
+                    # a region that starts exactly where a read ends, or ends exactly where a read starts (abutting, no overlap)
+                    src = recs[draw(st.integers(0, n - 1))]
+                    if not src['flag'] & 4 and src['tid'] >= 0:
+                        tid = src['tid']
+                        s = src['pos'] + cigar_ref_len(src['cigar']) if draw(st.booleans()) else max(0, src['pos'] - 30)
+                        e_ = s + 30 if s != max(0, src['pos'] - 30) else src['pos']
+                        if e_ > s:
+                            bed.append([contigs[tid][0], s, e_, 'region%d' % k])
+                            continue
                 bed.append([contigs[tid][0], s, s + draw(st.integers(1, 300)), 'region%d' % k])
         blacklist = None
         if draw(st.integers(0, 3)) == 0:
